@@ -89,7 +89,7 @@ where
     requires
         key_model_ok::<T>(),
     ensures
-        // [C01.new.empty_wf]
+        // [C01.new.empty_wf, C02.history.new_is_wellformed]
         g.wf_nodes(),
         g.nodes_vec@.len() == 0,
         g.edges_map@.len() == 0,
@@ -177,13 +177,13 @@ for node_name in it: node_names
     requires
         old(self).wf_nodes(),
     ensures
-        // [C01.add_node.wf_nodes_preserved]
+        // [C01.add_node.wf_nodes_preserved, C02.history.add_node_keeps_lookup_bijection]
         final(self).wf_nodes(),
         // [C01.add_node.replace_in_place]
         old(self).nodes_map@.contains_key(node.name) ==> final(self).nodes_vec@ == old(self).nodes_vec@.update(old(self).nodes_map@[node.name] as int, node),
         // [C01.add_node.append]
         !old(self).nodes_map@.contains_key(node.name) ==> final(self).nodes_vec@ == old(self).nodes_vec@.push(node),
-        // [C01.add_node.name_index_frame]
+        // [C01.add_node.name_index_frame, C02.history.add_node_name_index_effect]
         old(self).nodes_map@.contains_key(node.name) ==> final(self).nodes_map@ == old(self).nodes_map@,
         !old(self).nodes_map@.contains_key(node.name) ==> final(self).nodes_map@ == old(self).nodes_map@.insert(node.name, old(self).nodes_vec@.len() as usize),
         // [C01.add_node.edge_store_frame]
@@ -323,9 +323,9 @@ for node_name in it: node_names
         ae_ignored_duplicate_is_noop(*old(self), *edge, *final(self), r),
         // [C01.add_edge.nodes_created_source_first]
         ae_nodes(*old(self), *edge, *final(self), r),
-        // [C01.add_edge.wf_preserved]
+        // [C01.add_edge.wf_preserved, C02.history.add_edge_keeps_stores_wellformed]
         ae_wf(*old(self), *edge, *final(self), r),
-        // [C01.add_edge.store_effect]
+        // [C01.add_edge.store_effect, C02.history.add_edge_store_effect]
         ae_store(*old(self), *edge, *final(self), r),
         // [C03.add_edge.traversal_effect]
         ae_traversal(*old(self), *edge, *final(self), r),
@@ -600,7 +600,7 @@ for node in it: nodes
 //@ end
 
 // A5: assumed contract on an unverified graphrs function (values().flatten().collect() pipeline)
-//@ extract fn src/graph/query.rs get_all_edges ty=Graph
+//@ extract fn src/graph/query.rs get_all_edges ty=Graph nobody
 //@ head
     #[verifier::external_body]
 //@ rewrite
